@@ -4,6 +4,8 @@
 
 mod common;
 mod geom;
+mod p_dim;
+mod p_nn;
 mod p_struct;
 mod props;
 
@@ -15,6 +17,8 @@ pub struct Args {
     pub tier: String,
     pub seed: u64,
     pub verif_dir: PathBuf,
+    /// where evidence/ and replay/ are written (default: verif_dir)
+    pub out_dir: Option<PathBuf>,
     pub replay: Option<PathBuf>,
     pub leg: Option<String>,
     pub scale: f64,
@@ -26,6 +30,7 @@ fn main() {
         tier: std::env::var("VERIF_TIER").unwrap_or_else(|_| "quick".into()),
         seed: std::env::var("VERIF_SEED").ok().and_then(|s| s.parse().ok()).unwrap_or(1),
         verif_dir: PathBuf::from("/verif"),
+        out_dir: None,
         replay: None,
         leg: None,
         scale: std::env::var("VERIF_SCALE").ok().and_then(|s| s.parse().ok()).unwrap_or(1.0),
@@ -36,6 +41,7 @@ fn main() {
             "--tier" => a.tier = it.next().expect("--tier value"),
             "--seed" => a.seed = it.next().expect("--seed value").parse().expect("seed"),
             "--verif-dir" => a.verif_dir = PathBuf::from(it.next().expect("--verif-dir value")),
+            "--out-dir" => a.out_dir = Some(PathBuf::from(it.next().expect("--out-dir value"))),
             "--replay" => a.replay = Some(PathBuf::from(it.next().expect("--replay value"))),
             "--leg" => a.leg = Some(it.next().expect("--leg value")),
             "--scale" => a.scale = it.next().expect("--scale value").parse().expect("scale"),
@@ -53,6 +59,7 @@ fn main() {
     common::install_panic_hook();
     let known = KnownFindings::load(&a.verif_dir.join("known_findings.json"));
     let mut report = Report::new(&a.id, &a.tier, a.seed);
+    let out = a.out_dir.clone().unwrap_or_else(|| a.verif_dir.clone());
     if let Some(path) = a.replay.clone() {
         let code = props::replay(&a, &path, &mut report);
         std::process::exit(code);
@@ -60,9 +67,9 @@ fn main() {
     props::run(&a, &mut report);
     if a.leg.is_some() {
         // a sanitizer / auxiliary leg: print the verdict lines, but leave the evidence file to the main leg
-        let code = report.finish_leg(&a.verif_dir, &known, a.leg.as_deref().unwrap());
+        let code = report.finish_leg(&out, &known, a.leg.as_deref().unwrap());
         std::process::exit(code);
     }
-    let code = report.finish(&a.verif_dir, &known);
+    let code = report.finish(&out, &known);
     std::process::exit(code);
 }
